@@ -596,5 +596,6 @@ pub fn parts() -> Vec<Box<dyn PartDyn>> {
         shrink_budget: 100,
         confirm_runs: 2,
             fuzz: None,
+            watchdog_s: 60,
     })]
 }
